@@ -1,6 +1,7 @@
 (* C05 driver: one case (= one whole history) per input line, one result line per case.
    case:   <kind> <maxConf|d> <maxTerm|d> <op> <op> ...            (sequential history)
            conc <maxConf|d> <maxTerm|d> <op> ... / <gate> <opA> <opB>  (forced overlap, see harness)
+           late <maxConf|d> <maxTerm|d> <op> ... / <gate> <opA>        (real timer firing while A is parked)
            kind = fsm (mock option handler, proto LCP) | ncp (mock handler, proto IPCP)
                   | lcp | ipcp | ipv6cp (real handlers)
            op   = U | D | O | C | T | R (Restore) | K (Kill) | I<code>.<id>.<cls>.<dlen>[.<hex data>]
@@ -11,8 +12,9 @@
            actions = comma separated  scr.<id>.<hex content> sca.<id>.<tag> scn. srj. str. sta. scj. ser. tlu tld tls tlf | -
            handler call = R|A|N|J (ProcessConfReq/Ack/Nak/Rej) followed by the hex of the options passed | -
            a conc case prints the prefix steps, one combined step for the pair, then "alt=ok term=ok".
-   argv[3] = variant: repaired (both fix patches) | defective (fsm.go before the fixes)
-             | cells_unfixed (only the NCP patch applied) | ncp_unfixed (only the cells patch applied).
+   argv[3] = variant: repaired (all fix patches)
+             | restore_unfixed (Restore leaves restartCount 0) | late_unfixed (late timer callbacks run Timeout())
+             | legacy: defective (fsm.go before d6fc4b1/488e192) | cells_unfixed | ncp_unfixed.
    Every step of the repaired variant is also re-checked against the RFC table by the extracted
    [conformsb] (guards the extraction); a failure prints MODELBUG. *)
 let z_of_int (i : int) : z = if i = 0 then Z0 else if i > 0 then Zpos (pos_of_int i) else Zneg (pos_of_int (-i))
@@ -61,12 +63,16 @@ let () =
     | "cells_unfixed" -> { fix_cells = false; fix_ncp = true }
     | "ncp_unfixed" -> { fix_cells = true; fix_ncp = false }
     | _ -> { fix_cells = true; fix_ncp = true } in
+  let legacy = List.mem vname ["defective"; "cells_unfixed"; "ncp_unfixed"] in
+  let restore_fixed = not (legacy || vname = "restore_unfixed") in
+  let late_fixed = not (legacy || vname = "late_unfixed") in
   List.iter (fun line ->
     match tokens line with
     | kind0 :: mc :: mt :: ops ->
       (try
         let conc = (kind0 = "conc") in
-        let kind = if conc then "fsm" else kind0 in
+        let late = (kind0 = "late") in
+        let kind = if conc || late then "fsm" else kind0 in
         let mock = (kind = "fsm" || kind = "ncp") in
         let is_lcp = (kind = "fsm" || kind = "lcp") in
         let kindn = z_of_int (match kind with "lcp" -> 1 | "ipcp" -> 2 | "ipv6cp" -> 3 | _ -> 0) in
@@ -77,7 +83,7 @@ let () =
         let all_items = ref [] in
         (* one event: returns (obs string, action strings, handler-call strings) *)
         let admin_op op =       (* Restore() / Kill(): not events of the automaton *)
-          let f' = if op = "R" then restore !f else kill !f in
+          let f' = if op = "R" then restore restore_fixed c !f else kill !f in
           f := f';
           let (((((s, r), a), l), i), fl) = obs f' in
           (Printf.sprintf "%d/%d/%d/%d/%d/%d" (int_of_z s) (int_of_z r) (if a then 1 else 0)
@@ -117,6 +123,38 @@ let () =
         let fmt (o, acts, hc) =
           Printf.sprintf "%s:%s:%s" o (if acts = [] then "-" else String.concat "," acts)
             (if hc = [] then "-" else String.concat "," hc) in
+        let is_note x = List.mem x ["tlu"; "tld"; "tls"; "tlf"] in
+        let gate_hit gate x = match gate with "a" -> true | "s" -> not (is_note x) | "n" -> is_note x
+                                            | "u" -> x = "tlu" | "d" -> x = "tld" | _ -> false in
+        if late then begin
+          match split_at "/" ops with
+          | (prefix, Some [gate; a]) ->
+            let pre = List.map (fun op -> fmt (do_op op)) prefix in
+            let f0 = !f in
+            let (oa, aa, ha) = do_op a in
+            let f1 = !f in
+            let parked = List.exists (gate_hit gate) aa in
+            let valid = fire_still_valid f0 f1 in
+            (* repaired: the timer that was pending before A fires iff A neither stopped nor restarted it;
+               today's code: a callback that was already waiting for the mutex runs Timeout() regardless *)
+            let fires = f0.armed && (valid || ((not late_fixed) && parked)) in
+            let res =
+              if not fires then (oa, aa, ha)
+              else if valid && late_fixed then (let (o2, a2, h2) = do_op "T" in (o2, aa @ a2, ha @ h2))
+              else begin
+                let f2 = raw_timeout f1 in
+                (* a genuine expiry consumes the timer; a late one leaves whatever A armed *)
+                let f2 = if valid then (if List.exists (function Scr _ | Str _ -> true | _ -> false) (outs f2) then f2
+                                        else { f2 with armed = false }) else f2 in
+                f := f2;
+                let (((((s, r), am), l), i), fl) = obs f2 in
+                let a2 = filter_map (show_act mock kindn f2.hlog []) (outs f2) in
+                (Printf.sprintf "%d/%d/%d/%d/%d/%d" (int_of_z s) (int_of_z r) (if am then 1 else 0)
+                   (int_of_z l) (int_of_z i) (int_of_z fl), aa @ a2, ha)
+              end in
+            print_endline (String.concat " " (pre @ [fmt res; (if parked then "ov=1" else "ov=0")]))
+          | _ -> failwith "bad late case"
+        end else
         if not conc then begin
           let outl = List.map (fun op -> fmt (do_op op)) ops in
           print_endline (if outl = [] then "empty" else String.concat " " outl)
@@ -128,10 +166,7 @@ let () =
             let (_, aa, ha) = do_op a in
             let (ob, ab, hb) = do_op ~last:last0 b in
             let alt = if alternates false !all_items then "alt=ok" else "alt=BAD" in
-            let is_note x = List.mem x ["tlu"; "tld"; "tls"; "tlf"] in
-            let hit x = match gate with "a" -> true | "s" -> not (is_note x) | "n" -> is_note x
-                                      | "u" -> x = "tlu" | "d" -> x = "tld" | _ -> false in
-            let ov = if List.exists hit aa then "ov=1" else "ov=0" in
+            let ov = if List.exists (gate_hit gate) aa then "ov=1" else "ov=0" in
             print_endline (String.concat " " (pre @ [fmt (ob, aa @ ab, ha @ hb); ov; alt; "term=ok"]))
           | _ -> failwith "bad conc case"
         end
